@@ -41,6 +41,10 @@ func Keys[M ~map[K]V, K comparable, V any](m M, site string) []K {
 	return keys
 }
 
+// ZeroKV declares the loop variables of a rewritten map range in front of the loop (one pair
+// for all iterations, as the language of go.mod has it).
+func ZeroKV[M ~map[K]V, K comparable, V any](m M) (k K, v V) { return }
+
 //go:norace
 func permuteEnabled(c *Ctx, site string) bool {
 	if c.PermuteOff {
